@@ -16,6 +16,7 @@ import AiuVerif.Model.Conserve
 import AiuVerif.Props.C03
 import AiuVerif.Gen.Sites
 import AiuVerif.Lemmas.Sort
+import AiuVerif.Props.C04
 
 namespace AiuVerif.C01
 open AiuVerif.Conserve RS
@@ -166,6 +167,27 @@ example (uid : Sort.SEv → Option Nat) (input : List Sort.SEv) :
   · exact sort_is_pass uid _ _
   · exact barrier_is_pass uid
   · exact sort_is_pass uid _ _
+
+/-- **The `-O tid` overlap sub-pipeline is pass class** (model of sort → assert → detect tids →
+barrier → detect events, tied to the code by C04's correspondence): whenever it returns, its
+output carries exactly the input uids.  (When it does not return, the run aborts with the
+lane-budget `KeyError` — C04.error_is_budget — and nothing is exported at all.) -/
+theorem overlap_tid_conserves (evs out : List Overlap.Ev)
+    (h : Overlap.pipeline .tid evs = .ok out) :
+    (out.map (·.uid)).Perm (evs.map (·.uid)) := by
+  have h2 := (C04.only_tid_changes evs out h).2
+  have := h2.map (fun e : Overlap.Ev => e.uid)
+  simpa [List.map_map, Function.comp_def, Overlap.Ev.noTid] using this
+
+/-- **`-O drop` is filter class**: it never duplicates or invents a slice. -/
+theorem overlap_drop_conserves (evs out : List Overlap.Ev)
+    (h : Overlap.pipeline .drop evs = .ok out) :
+    ∃ r, (out.map (·.uid) ++ r).Perm (evs.map (·.uid)) := by
+  obtain ⟨hsub, hperm⟩ := C04.drop_sublist evs out h
+  obtain ⟨l, hl⟩ := hsub.exists_perm_append
+  refine ⟨l.map (·.uid), ?_⟩
+  have h1 : ((out ++ l).map (·.uid)).Perm (evs.map (·.uid)) := (hl.symm.trans hperm).map _
+  simpa using h1
 
 /-! ### non-vacuity: a holder, a filter and a duplicating-of-nonslices stage -/
 def holdAll : RS (Option Nat) :=
